@@ -37,6 +37,28 @@ ADVISORY = {
     'C10.R1c': 'scope builder call spelling -> scope table C10.R1, selection simulation C10.R7',
     'C15.R3': 'idempotent overwrite spelling -> sharing simulation C15.R8, tied constants C15.R10',
     'C19.R6': 'shared-table access spelling -> C19.R12 append-only tables, C19.R13 independence',
+    'C04.R3': 'batch-matmul dimension spelling -> C04.R11 true per-channel statistics (adj_y both ways)',
+    'C04.R7': 'zp / scale formulas as text -> parameter laws C17.R12, scalar tables C17.R11, C04.R13',
+    'C17.R2': 'zp / scale formulas as text -> parameter laws C17.R12, scalar tables C17.R11',
+    'C17.R1': 'round-before-cast spelling -> scalar quantize table C17.R11 (exact ties, saturation)',
+    'C05.R5': 'round-before-cast spelling -> C05.R11 numeric table, C17.R11',
+    'C17.R7': 'round / clip / cast chain as text -> C17.R11 scalar table (a cast that wraps is an OverflowError outcome)',
+    'C05.R7': 'round / clip / cast chain as text -> C05.R11 numeric table',
+    'C17.R9': 'rank fix-up spelling -> C05.R11 / C04.R13 per-channel numeric tables',
+    'C05.R6': 'rank fix-up spelling -> C05.R11 per-channel numeric table',
+    'C08.R5': 'empty-consumer guard spelling -> vertical-optimisation table C08.R6 = C03.R4, pipeline C08.R8',
+    'C15.R4': 'classification spelling -> sharing simulation C15.R8, tied constants C15.R10',
+    'C15.R5': 'compatibility comparison spelling -> compatibility decision table C15.R5 (value part), C15.R8',
+    'C16.R3': 'placeholder statements -> layout table C16.R6',
+    'C16.R4': 'constant-map loop spelling -> layout table C16.R6 (total == recorded bytes)',
+    'C16.R5': 'threshold comparison spelling -> C16.R5 value part',
+    'C18.R2': 'pop-partition statements -> validation simulation C18.R9 (every tensor in exactly one group)',
+    'C18.R6': 'dequantize flag spelling -> C18.R9',
+    'C18.R7': 'metric formulas as text -> C18.R9 (metric order), metric functions themselves are out of the interpreter\'s reach',
+    'C19.R1': 'instruction field spelling -> graph-info tables C19.R1 (value part), C19.R13',
+    'C17.R8': 'only when the bias function is not recognisable -> bias law on values C04.R14 / R15',
+    'C04.R4b': 'same as C17.R8',
+    'C18.R1': 'only when compare_model is not recognisable -> validation simulation C18.R9',
 }
 
 
@@ -49,7 +71,7 @@ ADVISORY_OBLIGATIONS = {
     'C01.R3': ['the inserted operator must read exactly', 'the new tensor must copy the shape', 'the operator must be inserted into the instruction'],
     'C01.R6': ['`'],
     'C02.R2': ['*'],
-    'C02.R3': ['subgraph.outputs is rewired although', 'only the output entry equal to the source tensor'],
+    'C02.R3': ['subgraph.outputs is rewired although', 'only the output entry equal to the source tensor', 'graph outputs must be copied before the transformation'],
     'C03.R3': ['cannot find the unknown-op', 'inputs must be filed as consumers', 'no-quant params must cover', 'the unknown-op-code and the NO_QUANTIZE branch', 'the only operand skipped by the no-quant path'],
     'C03.R6c': ['bias is treated as a constant under', 'bias params must be built with'],
     'C03.R9': ['*'],
@@ -67,6 +89,28 @@ ADVISORY_OBLIGATIONS = {
     'C10.R1c': ['*'],
     'C15.R3': ['buffer 0 (the shared empty buffer)', 'flatbuffer field ', 'the buffer must only be written when'],
     'C19.R6': ['tensor/operator lists of another object', 'the new tensor must be added to', 'transformations must receive the model-wide'],
+    # second set of refactorings (r15: C05, C12, C16, C17, C18, C19 files)
+    'C04.R3': ['batch-matmul quantized dimension for adj_y'],
+    'C04.R7': ['*'],
+    'C17.R2': ['*'],
+    'C17.R1': ['~is cast without rounding'],
+    'C05.R5': ['~is cast without rounding'],
+    'C17.R7': ['*'],
+    'C05.R7': ['*'],
+    'C17.R9': ['scale and zero point must both be expanded', 'the axes to expand are no longer'],
+    'C05.R6': ['scale and zero point must both be expanded', 'the axes to expand are no longer'],
+    'C08.R5': ['the producer rule is kept although all its consumers were taken over'],
+    'C15.R4': ['ADD_DEQUANTIZE quantizes the tensor but', 'NO_QUANTIZE must count as unquantized', 'QUANTIZE_TENSOR quantizes the tensor but'],
+    'C15.R5': ['producer pair, both consumer lists internally'],
+    'C16.R3': ['*'],
+    'C16.R4': ['the total constant size must be accumulated'],
+    'C16.R5': ['sizes above the threshold must take the large-model path'],
+    'C18.R2': ['*'],
+    'C18.R6': ['dequantization must apply exactly to quantized tensors'],
+    'C18.R7': ['*'],
+    'C19.R1': ['tensor id and producer of an instruction must come from'],
+    # no advisory obligation, but "cannot recognise the function" (an AnalysisError / a lost subject of these rules) is a note
+    'C17.R8': [], 'C04.R4b': [], 'C18.R1': [], 'C18.R3': [],
 }
 
 
